@@ -121,6 +121,9 @@ func (d *cnDriver) genSpec() cnTxSpec {
 	nonce := uint64(d.acctField(a.name, "n"))
 	kinds := []string{"transfer", "transfer", "burn", "escrow", "escrow", "reclaim", "reclaim", "allow", "withdraw", "amend"}
 	sp := cnTxSpec{Kind: kinds[d.rng.Intn(len(kinds))], Signer: a.name, Nonce: nonce, Gas: 2000, Validity: "ok"}
+	if a.name == "E1" && sp.Kind == "reclaim" {
+		sp.Kind = "escrow" // documented precondition: entity 1 keeps its self-delegation, so one validator stays stake-eligible
+	}
 	other := accts[d.rng.Intn(len(accts))]
 	ents := d.net.cfg.Validators
 	amtClass := func(limit int64) int64 {
@@ -284,7 +287,7 @@ func (d *cnDriver) step() error {
 	epochNow := (h - 1) / n.cfg.EpochInterval
 	if (h-1)%n.cfg.EpochInterval == n.cfg.EpochInterval-2 || n.cfg.EpochInterval < 3 {
 		for i, v := range n.vals {
-			if i > 0 && d.rng.Intn(12) == 0 {
+			if i != 1 && d.rng.Intn(12) == 0 {
 				continue // let this node lapse for an epoch
 			}
 			nonce := uint64(d.acctField(v.name, "n")) + nonceBump[v.name]
@@ -355,8 +358,11 @@ func (d *cnDriver) step() error {
 			if d.sched != nil {
 				row := d.sched[int(h)%len(d.sched)]
 				path = row[i%len(row)]
+				if path == "propose" {
+					path = "process" // the proposer is fixed by the validator set, not by the schedule
+				}
 			} else {
-				path = []string{"process", "process", "replay", "other_then_process", "other_then_begin", "restart_process"}[d.rng.Intn(6)]
+				path = []string{"process", "process", "replay", "other_then_process", "other_then_begin", "restart_process", "restart_replay"}[d.rng.Intn(7)]
 			}
 		}
 		if !r.cfg.OnDisk && strings.HasPrefix(path, "restart") {
